@@ -150,6 +150,8 @@ def worker_main(argv):
             ctx.stratum('sentence of 120..220 tokens', gen.LONG[0])
         for k_, v_ in gen.SPICE_USED.items():
             ctx.stratum(k_, v_)
+        if gen.ATNODES[0]:
+            ctx.stratum('input tree with @-labelled nodes', gen.ATNODES[0])
         if gen.LOOKALIKE[0]:
             ctx.stratum('token that resembles punctuation but is none',
                         gen.LOOKALIKE[0])
